@@ -95,11 +95,15 @@ def occupancy(o):
     return {"t": ["itv", num(t.start), num(t.end)] if isinstance(t, Interval) else num(t), "shape": shape(o.shape)}
 
 
-def prediction(p):
+def prediction(p, fmt="xml"):
     if p is None:
         return None
     if isinstance(p, TrajectoryPrediction):
-        return {"traj": [state(s) for s in p.trajectory.state_list], "t0": num(p.trajectory.initial_time_step)}
+        d = {"traj": [state(s) for s in p.trajectory.state_list], "t0": num(p.trajectory.initial_time_step)}
+        if fmt == "pb":
+            # the protobuf format has a field for the prediction's own shape (XML has not: there it is the obstacle's)
+            d["shape"] = shape(p.shape)
+        return d
     if isinstance(p, SetBasedPrediction):
         return {"occ": [occupancy(o) for o in p.occupancy_set], "t0": num(p.initial_time_step)}
     raise TypeError(type(p))
@@ -115,7 +119,7 @@ def obstacle(o, fmt):
     if isinstance(o, DynamicObstacle):
         # a dynamic obstacle's shape is documented as origin-centred: only the dimensions are stored
         d["shape"] = shape(o.obstacle_shape, centred=(fmt == "xml"))
-        d["prediction"] = prediction(o.prediction)
+        d["prediction"] = prediction(o.prediction, fmt)
     else:
         d["shape"] = shape(o.obstacle_shape)
     if isinstance(o, DynamicObstacle) or fmt == "pb":
